@@ -616,6 +616,88 @@ RULE_TEXT = ("random points of the product {set, unset}^(time, grid, units, extr
              "non-trivial = a successful exchange that filled a producer field, had two consumers or an adapter")
 
 
+# ---------------------------------------------------------------------------------------------
+# relays that build the metadata of an output from the metadata of an input (transfer rules of the connect helper)
+# ---------------------------------------------------------------------------------------------
+class Relay(fm.TimeComponent):
+    def __init__(self, in_kw, rules):
+        super().__init__()
+        self._in_kw, self._rules, self._time = in_kw, rules, T(0)
+
+    def _next_time(self):
+        return self.time + DAY
+
+    def _initialize(self):
+        self.inputs.add(name="in", **self._in_kw)
+        self.outputs.add(name="out")
+        self.create_connector(out_info_rules={"out": self._rules})
+
+    def _connect(self, start_time):
+        self.try_connect(start_time, push_data={"out": np.zeros(())})
+
+    def _validate(self):
+        pass
+
+    def _update(self):
+        self._time += DAY
+
+    def _finalize(self):
+        pass
+
+
+def gen_relay(rng):
+    """Source(units u0, extra entry) >> Relay(in: some fields unset; out: everything from `in`, then units / the
+    extra entry replaced by rules) >> Sink"""
+    u0, u1 = rng.choice([("m", "km"), ("m", "s"), ("K", "m"), ("mm", "s")])
+    return {"relay": True, "u0": u0, "u1": u1, "in_units": rng.choice([None, u0]),
+            "in_grid": rng.choice([None, "nogrid"]), "foo": rng.choice([None, 1]), "foo_out": rng.choice([None, 2]),
+            "replace_units": rng.random() < 0.8, "order": rng.sample([0, 1, 2], 3)}
+
+
+def run_relay(case):
+    rules = [fm.tools.FromInput("in")]
+    if case["replace_units"]:
+        rules.append(fm.tools.FromValue("units", case["u1"]))
+    if case["foo_out"] is not None:
+        rules.append(fm.tools.FromValue("foo", case["foo_out"]))
+    src_kw = {"time": T(0), "grid": fm.NoGrid(), "units": case["u0"]}
+    if case["foo"] is not None:
+        src_kw["foo"] = case["foo"]
+    src = Producer(fm.Info(**src_kw))
+    in_kw = {"time": T(0), "grid": None if case["in_grid"] is None else fm.NoGrid(), "units": case["in_units"]}
+    rel = Relay(in_kw, rules)
+    out_units = case["u1"] if case["replace_units"] else case["u0"]
+    snk = Consumer(fm.Info(time=T(0), grid=fm.NoGrid(), units=out_units))
+    comps = [src, rel, snk]
+    comp = fm.Composition([comps[i] for i in case["order"]], print_log=False, log_level=logging.CRITICAL)
+    src.outputs["out"] >> rel.inputs["in"]
+    rel.outputs["out"] >> snk.inputs["in"]
+    try:
+        comp.connect(T(0))
+    except Exception as e:  # noqa
+        return {"error": err_class(e), "msg": str(e)[:200]}
+    link = lambda o, i: {"delivered": canon_info(o.info), "input": canon_info(i.info)}  # noqa
+    return {"error": None, "links": [link(src.outputs["out"], rel.inputs["in"]), link(rel.outputs["out"], snk.inputs["in"])]}
+
+
+def oracle_relay(case, impl):
+    if impl["error"] is not None:
+        return ("a relay whose output metadata are derived from its input by transfer rules connects",
+                {"error": impl["error"], "msg": impl.get("msg")})
+    for k, l in enumerate(impl["links"]):
+        d, i = l["delivered"], l["input"]
+        unset = [f for f in ("time", "grid", "units") if i[f] is None]
+        if unset:
+            return ("the receiving input's metadata has no unset field", {"link": k, "unset": unset})
+        if not (isinstance(i["units"], int) and isinstance(d["units"], int) and dims(i["units"]) == dims(d["units"])):
+            return ("the input's units are dimensionally convertible from the delivered units",
+                    {"link": k, "input_units": i["units"], "delivered_units": d["units"]})
+        if dict(map(tuple, i["meta"])) != dict(map(tuple, d["meta"])) and k == 0:
+            return ("fields left unset on the input carry the source's values (and nothing else changes them)",
+                    {"link": k, "input_meta": i["meta"], "delivered_meta": d["meta"]})
+    return None
+
+
 def run(ctx, res):
     res.rule = RULE_TEXT
     res.assumptions = ["non-static outputs; Info.mask is never None on a slot (FLEX / NONE / array)",
@@ -624,6 +706,15 @@ def run(ctx, res):
                        "them independently by data locations / pint dimensionality / masked locations"]
     cases = corpus() + [gen_case(ctx.rng) for _ in range(ctx.n(2500, 40000))]
     check_cases(cases, res)
+    # relays with transfer rules: judged by the oracle only (the connect helper's rule system is modelled in C06)
+    for _ in range(ctx.n(40, 400)):
+        c = gen_relay(ctx.rng)
+        impl = run_relay(c)
+        res.case(c, True)
+        res.count("relay_cases")
+        o = oracle_relay(c, impl)
+        if o:
+            res.fail(c, o[0], o[1])
 
 
 def search(ctx, res, divergences, broken):
@@ -639,6 +730,8 @@ def search(ctx, res, divergences, broken):
 
 def _fails(case):
     try:
+        if case.get("relay"):
+            return oracle_relay(case, run_relay(case))
         return oracle(case, run_impl(case))
     except Exception:  # noqa
         return None
@@ -649,6 +742,8 @@ def shrink(ctx, f):
     import copy
 
     case = f["case"]
+    if case.get("relay"):
+        return f
 
     def variants(c):
         n_in = sum(len(b["inputs"]) for b in c["branches"])
@@ -689,6 +784,10 @@ def shrink(ctx, f):
 
 def replay(ctx, rp):
     case = rp.get("input") or (rp.get("diverging_case") or {}).get("case")
+    if case.get("relay"):
+        impl = run_relay(case)
+        o = oracle_relay(case, impl)
+        return {"fails": bool(o), "oracle": o, "impl": impl}
     impl = run_impl(case)
     o = oracle(case, impl)
     m = common.lean_batch([model_request(case)])[0]
